@@ -17,14 +17,38 @@ package harness
 //      fresh-process execution line by line (and the same comparison is made here, monitor replica_agreement,
 //      scope "fresh-process", so that a disagreement carries a class),
 //   4. once more in this process with the `all_odds` list of every wager ticket (bet and subaccount wagers)
-//      REVERSED: app hashes and events must not change (monitor ticket_list_order; Lean: C15 wager_perm).
+//      REVERSED: app hashes and events must not change (monitor ticket_list_order; Lean: C15 wager_perm),
+//   5. as a RESTARTED REPLICA: the same blocks, but after the Commit of one or two blocks drawn by the history's
+//      PRNG (detGen.drawRestarts; three times out of four right where a parameter change of the history takes
+//      effect) the application object is dropped and a NEW one is constructed over the SAME database
+//      (Env.Restart in base.go: app.NewSgeApp with loadLatest = true over the MemDB that NewEnvOn retained; it
+//      must come up at the committed height and app hash), and the remaining blocks run on it. Keeper structs
+//      and everything they point to are new and empty, the committed multistore is identical: a validator that
+//      was restarted, or a node that joined by state sync. Every record (app hash, per-store hashes, results,
+//      events, gas) must equal execution 1: monitor replica_agreement, class `restarted-replica-differs`; the
+//      detail names the first differing block, the stores whose commit hashes differ, and — from a re-execution
+//      of both variants that dumps that store — the first differing key with both values.
+//      No fallback to re-execution from genesis exists. Restarting in one OS process meets one known obstacle,
+//      the process-wide store key of ibc-go's 08-wasm light client (see exportModules in genesis_xi.go): it
+//      always refers to the NEWEST application object, and here the newest object is the one in use (the
+//      stopped instance is never called again; all replicas of a history run one after the other), so nothing
+//      had to be worked around. What a same-process restart cannot forget is package-level state: that is the
+//      job of the fact theorem C15Facts.no_package_level_mutable_state.
+//   6. as a SIMULATING REPLICA: before each block every transaction of the block is run on a throw-away branch
+//      of the check state, as a node does that answers Simulate (gas estimation) queries; class
+//      `simulating-replica-differs`.
+//
+// The generator (second part in suite_determinism_tx.go) also draws atomic multi-message transactions, authority
+// message lists (governance proposals executed in place and through x/gov's submit / vote / EndBlocker), legacy
+// x/params parameter changes, and messages that fail after a valid parameter update of the same transaction.
 //
 // One execution = NewEnv (InitChain from the deterministic genesis + Commit), a set-up block that stores the
-// drawn module parameters, then per block BeginBlock(header{height,time}), every message through
-// app.MsgServiceRouter().Handler(msg) on a cache context that is written only on success (panics recovered),
-// EndBlock, Commit. Recorded per block: the ABCI events of BeginBlock / every message / EndBlock (type and
-// attributes, in order), every message's result (ok + digest of the response data, or codespace/code of the
-// error) with the gas it consumed, the app hash (LastCommitID().Hash) and the commit hash of every store.
+// drawn module parameters (and x/gov's deposit and voting period), then per block BeginBlock(header{height,time}),
+// every transaction through app.MsgServiceRouter().Handler(msg) on a cache context that is written only if all
+// its messages succeed (panics recovered), EndBlock, Commit. Recorded per block: the ABCI events of BeginBlock /
+// every message / EndBlock (type and attributes, in order), every message's result (ok + digest of the response
+// data, or codespace/code of the error) with the gas it consumed, commit or rollback of every group, the app hash
+// (LastCommitID().Hash) and the commit hash of every store.
 // Go randomises the iteration order of every map instance, so two executions already traverse every map in
 // different orders; the fresh process adds a different scheduler configuration and different addresses.
 
